@@ -19,6 +19,7 @@ class DV:
         self.items: dict[str, object] = {}
         self.origin: dict[str, FuncInfo] = {}
         self.conditional: set[str] = set()
+        self.cond_tests: dict[str, tuple] = {}  # key -> (test expr, polarity, function) for conditionally written keys
         self.opaque_spreads: list[str] = []
 
     def copy(self) -> "DV":
@@ -27,6 +28,7 @@ class DV:
             d.items[k] = v.copy() if isinstance(v, DV) else v
         d.origin = dict(self.origin)
         d.conditional = set(self.conditional)
+        d.cond_tests = dict(self.cond_tests)
         d.opaque_spreads = list(self.opaque_spreads)
         return d
 
@@ -90,8 +92,8 @@ class DictInterp:
                     if r is not None:
                         raise AnalysisError(f"{fi.qualname}: conditional return in {self.method}")
                     continue
-                r1 = self._block(fi, st.body, env, True)
-                r2 = self._block(fi, st.orelse, env, True)
+                r1 = self._block(fi, st.body, env, cond if isinstance(cond, tuple) else ("if", st.test, True, fi))
+                r2 = self._block(fi, st.orelse, env, cond if isinstance(cond, tuple) else ("if", st.test, False, fi))
                 if r1 is not None or r2 is not None:
                     raise AnalysisError(f"{fi.qualname}: conditional return in {self.method}")
             elif isinstance(st, ast.Delete):
@@ -143,6 +145,8 @@ class DictInterp:
                 cont.origin[k] = fi
                 if cond:
                     cont.conditional.add(k)
+                    if isinstance(cond, tuple):
+                        cont.cond_tests[k] = cond
                 return
             if isinstance(cont, DV):
                 raise AnalysisError(f"{fi.qualname}: non-literal key in `{norm(target)}`")
@@ -165,6 +169,7 @@ class DictInterp:
                         d.items.update(c.items)
                         d.origin.update(c.origin)
                         d.conditional |= c.conditional
+                        d.cond_tests.update(c.cond_tests)
                         d.opaque_spreads += c.opaque_spreads
                     else:
                         d.opaque_spreads.append(norm(v))
